@@ -42,7 +42,7 @@ def run(ctx):
         hs += more
     # longer histories than the exhaustive bound: the same innermost block under two different outer blocks (a cached
     # merge must not survive the change of a dictionary below the top), and random walks of 6-12 events
-    ids = ["e", "a1", "A2", "a3", "b1", "ab", "cl", "ct", "ua", "UA"]
+    ids = ["e", "a1", "A2", "a3", "b1", "ab", "cl", "ct", "ua", "UA", "ho", "HO"]
     twins = [{"h": [rnd.choice(ids), ["enter", x], ["enter", h], [rnd.choice(["call", "notify", "batch"])], ["exitN"], [rnd.choice(["exitN", "exitE"])],
                     ["enter", y], ["enter", h], [rnd.choice(["call", "notify", "batch"])], ["exitN"], ["exitN"], ["call"]]}
              for x in ids for y in ids for h in ids if x != y]
